@@ -1020,9 +1020,19 @@ func (g *Gen) bitArray(n int) {
 	}
 }
 
+// blobLen: payload length of a media object or custom binary value: mostly short, sometimes around and
+// beyond the block sizes a writer might work in (seeded change C23B3 wrote hex bytes in blocks of 64 and
+// glued the blocks together)
+func (g *Gen) blobLen() int {
+	if g.r.P(1, 6) {
+		return []int{63, 64, 65, 100, 129, 200}[g.r.Intn(6)]
+	}
+	return g.r.Intn(20)
+}
+
 func (g *Gen) customBinary() {
 	ct := g.customTypeCode()
-	d := g.r.Bytes(g.r.Intn(20))
+	d := g.r.Bytes(g.blobLen())
 	if g.c.NoChunked || g.r.P(1, 2) {
 		g.emit(Event{K: "cb", N: ct, D: d})
 		return
@@ -1096,7 +1106,7 @@ func (g *Gen) media() {
 	if g.r.P(1, 3) {
 		mt = randValidMediaType(g.r)
 	}
-	d := g.r.Bytes(g.r.Intn(20))
+	d := g.r.Bytes(g.blobLen())
 	if g.c.NoChunked || g.r.P(1, 2) {
 		g.emit(Event{K: "md", D2: []byte(mt), D: d})
 		return
